@@ -40,6 +40,7 @@ def key_of_access(n):
 
 def run(ctx, rep):
     m = ctx.m
+    choice_folds(ctx, rep)
     R1 = rep.rule('C09.R1', 'option-dependent target keys (None when the option is off) never reach an ordering comparison or arithmetic unguarded')
     keys = nullable_keys(m)
     want = {'candidate_score', 'min_candidate_score', 'max_candidate_score', 'group_score', 'min_group_score'}
@@ -108,15 +109,6 @@ def run(ctx, rep):
                         rep.finding(R2, f'C09.R2/{mod}:{qn}/{n.value}', m.loc(mod, n), qn,
                                     f'reads the search option {n.value} outside the reviewed choice functions: the outcome could depend on it')
     rep.floor('C09.R2', 'option reads', nread, 3)
-    # the choice functions, folded over mock rules/targets for every option value
-    from .. import search
-    for fold in (search.fold_rule_target, search.fold_group_application):
-        res, cons = fold(m)
-        rep.consult(*cons)
-        for ok, case, detail in res:
-            rep.instance(R2, ok=ok, sample=dict(fold=fold.__name__, case=case), nontrivial=(fold.__name__, case))
-            if not ok:
-                rep.finding(R2, f'C09.R2/{fold.__name__[5:]}/{case}', cons[0].split(' ')[0], fold.__name__[5:], f'{case}: {detail}')
     # group_score / score_candidate implementations must not write to targets or branches
     nsc = 0
     for mod, qn, fn in astq.iter_functions(m):
@@ -135,6 +127,19 @@ def run(ctx, rep):
                             'when it arrived (the C04.R7 folds)')
     n6 = common.bookkeeping(ctx, rep, R6, 'C09.R6')
     rep.floor('C09.R6', 'bookkeeping cases', n6, 90)
+    # premise multiplicity: many nodes sharing a sentence put the branch index on its cut-off paths
+    R8 = rep.rule('C09.R8', 'repeating premises cannot hide a node: Branch.find / has / search and the branch index folded over branches with more nodes sharing a '
+                            'sentence than the index cut-off, on the branch and on copies (C05.R5) -- a closing pair is found however often a premise is repeated')
+    from .. import branchfold
+    res8, cons8 = branchfold.fold_branch_lookup(m, deep=rep.tier == 'thorough')
+    rep.consult(*cons8)
+    for ok8, case8, detail8 in res8:
+        rep.instance(R8, ok=ok8, nontrivial=case8)
+        if not ok8:
+            rep.finding(R8, f'C09.R8/{case8}', cons8[0].split(' ')[0], 'Branch.find', f'{case8}: {detail8}')
+    rep.floor('C09.R8', 'lookup cases', len(res8), 800)
+    RF = rep.rule('C09.R7', 'no starvation behind the fairness gate (the C02.R8 fold): whenever some node still has an accessible world it was not applied to, the box-type rules offer a target -- an unsaturated open branch would make the verdict depend on the order and multiplicity of premises')
+    common.fair_gate(ctx, rep, RF, 'C09.R7')
     R3 = rep.rule('C09.R3', 'build() is the step() loop')
     b = m.func(TAB, 'Tableau.build')
     si = m.func(TAB, 'Tableau.stepiter')
@@ -162,6 +167,20 @@ def run(ctx, rep):
     if not ok:
         rep.finding(R3, 'C09.R3/stepiter/fold', m.loc(TAB, si), 'Tableau.stepiter', f'does not yield step() results until the first empty one: {out}')
     rep.consult(m.loc(TAB, b) + ' Tableau.build', m.loc(TAB, si) + ' Tableau.stepiter')
+
+
+def choice_folds(ctx, rep):
+    "the choice functions (Rule.target, group application), folded over mock rules/targets for every option value; run first: they are decisive on their own"
+    from .. import search
+    m = ctx.m
+    R2 = rep.rule('C09.R2', 'search options are read only in the reviewed choice functions, which return elements of their input')
+    for fold in (search.fold_rule_target, search.fold_group_application):
+        res, cons = fold(m)
+        rep.consult(*cons)
+        for ok, case, detail in res:
+            rep.instance(R2, ok=ok, sample=dict(fold=fold.__name__, case=case), nontrivial=(fold.__name__, case))
+            if not ok:
+                rep.finding(R2, f'C09.R2/{fold.__name__[5:]}/{case}', cons[0].split(' ')[0], fold.__name__[5:], f'{case}: {detail}')
 
 
 def fairness_rule(ctx, rep):
